@@ -6,12 +6,16 @@ Scenario lines (see lean/DesperModel/Loop.lean for the model's reading of the sa
                                                     processors 0.. (p plain, u OnUpdateProcessor,
                                                     c CoroutineProcessor with one generator) and the
                                                     load-time events c<k>(tok) dispatched while loading
+    clock f8|int|frac                               what the time function returns for a reading r:
+                                                    f8 (default) the float r/8.0, int the Python int r
+                                                    (any size: ns clocks above 2**53), frac the exact
+                                                    Fraction(r, 7); readings may be negative / decrease
     react <n> <act>                                 what the callback of the n-th delivery (0-based,
                                                     counted over the whole scenario) does
     op load <h>                                     handle()
     op switch <h> <cc> <cn>                         loop.switch(handle, cc, cn) from the test program
     op start                                        loop.start(); the following `frame` lines are the
-    frame <reading> <act> ; <act> ; ...             clock readings (units of 1/8 s) and what processor
+    frame <reading> <act> ; <act> ; ...             clock readings (integers, see `clock`) and what processor
                                                     0, 1, .. does in the frame that consumed the reading
     act ::= none | switch h cc cn | rswitch h cc cn | quit | quitto h | rquit | rother
 
@@ -22,6 +26,8 @@ Observations:
     implementation only (read by the C14 oracle, never compared with the model):
     start | tick <reading> current=.. handle=.. | tick end | do <kind> current=.. handle=.. [tgt=<inst> en=<0|1>]
 """
+from fractions import Fraction
+
 import desper
 from desper.model.world import WorldHandle
 
@@ -69,6 +75,8 @@ def parse(lines):
                             'load': [tuple(int(v) for v in x.split(':')) for x in split_list(d['load'])]})
         elif t[0] == 'react':
             reacts.setdefault(int(t[1]), t[2:])
+        elif t[0] == 'clock':
+            assert t[1] in CLOCKS, ln
         elif t[0] == 'op':
             if t[1] == 'start':
                 ops.append(['start', []])
@@ -85,9 +93,37 @@ def parse(lines):
     return handles, reacts, ops
 
 
-def enc_dt(dt):
-    v = dt * 8
-    return str(int(v)) if v == int(v) else repr(dt)
+# what the scenario's time function returns for the integer reading r, and the unit in which a
+# delta is printed (a delta is printed as the exact rational dt / unit; never through float)
+CLOCKS = {
+    'f8': (lambda r: _f8(r), Fraction(1, 8)),        # exact in binary floating point for small r
+    'int': (lambda r: r, Fraction(1)),               # Python int of any size (time.time_ns style)
+    'frac': (lambda r: Fraction(r, 7), Fraction(1, 7)),
+}
+
+
+def _f8(r):
+    if abs(r) >= 2 ** 50:
+        raise ValueError('an f8 clock needs readings that are exact in binary floating point')
+    return r / 8.0
+
+
+def clock_of(lines):
+    for ln in lines:
+        t = ln.split()
+        if t and t[0] == 'clock':
+            return t[1]
+    return 'f8'
+
+
+def enc_dt(dt, unit=Fraction(1, 8)):
+    """The delta handed to process(), as an exact number of reading units: an integer when it is
+    one, else the exact fraction p/q (a float is converted exactly, it is never rounded)."""
+    try:
+        v = Fraction(dt) / unit
+    except (TypeError, ValueError, OverflowError):
+        return f'{type(dt).__name__}:{dt!r}'
+    return str(v.numerator) if v.denominator == 1 else f'{v.numerator}/{v.denominator}'
 
 
 def exc_name(e):
@@ -97,6 +133,7 @@ def exc_name(e):
 class Run:
     def __init__(self, lines):
         self.decls, self.reacts, self.ops = parse(lines)
+        self.to_clock, self.unit = CLOCKS[clock_of(lines)]
         self.obs = []
         self.delivered = 0
         self.frames = []
@@ -112,7 +149,7 @@ class Run:
         reading, acts = self.frames.pop(0)
         self.cur_acts = acts
         self.obs.append(f'tick {reading} {self.where()}')
-        return reading / 8.0
+        return self.to_clock(reading)
 
     def frame_act(self, p):
         return self.cur_acts[p] if p < len(self.cur_acts) else ['none']
@@ -175,7 +212,7 @@ class Run:
             'on_switch_in': lambda self, a, b: run.delivery(world, 'on_switch_in', two_worlds(self, a, b)),
             'on_switch_out': lambda self, a, b: run.delivery(world, 'on_switch_out', two_worlds(self, a, b)),
             'on_quit': lambda self: run.delivery(world, 'on_quit', '_'),
-            'on_update': lambda self, dt: run.delivery(world, 'on_update', enc_dt(dt)),
+            'on_update': lambda self, dt: run.delivery(world, 'on_update', enc_dt(dt, run.unit)),
         }
         for k in range(4):
             ns[f'c{k}'] = (lambda name: lambda self, tok: run.delivery(world, name, str(tok)))(f'c{k}')
@@ -186,7 +223,7 @@ class Run:
         run = self
 
         def log(dt):
-            run.obs.append(f'proc {world._inst} {p} {enc_dt(dt)}')
+            run.obs.append(f'proc {world._inst} {p} {enc_dt(dt, run.unit)}')
         if kind == 'p':
             def process(self, dt):
                 log(dt)
@@ -219,7 +256,7 @@ class Run:
             orig = world.process
 
             def process(dt=1):
-                run.obs.append(f'frame {world._inst} {enc_dt(dt)}')
+                run.obs.append(f'frame {world._inst} {enc_dt(dt, run.unit)}')
                 return orig(dt)
             world.process = process          # observation hook on the instance, not on desper
             world.create_entity(run.make_listener(world))
